@@ -20,6 +20,8 @@ type Cases struct {
 	known   map[string]bool
 	replay  int // case index to replay, -1 otherwise
 	next    int
+	// NoMark disables the per-case crash marker (for very cheap, very numerous cases).
+	NoMark bool
 }
 
 func (e *Env) NewCases(res *Result, name string) *Cases {
@@ -52,7 +54,7 @@ func (c *Cases) Next() (idx int, mine bool) {
 		return idx, idx == c.replay
 	}
 	mine = idx%c.e.NShards == c.e.Shard
-	if mine {
+	if mine && !c.NoMark {
 		c.e.mark(c.st.Name, []Point{{Kind: "case", N: 1 << 30, Chosen: idx}})
 	}
 	return idx, mine
@@ -71,6 +73,21 @@ func (c *Cases) Record(idx int, obs string, steps int, sample func() string) {
 	c.st.Outcomes[obs]++
 	if c.replay >= 0 {
 		fmt.Printf("REPLAY case %d: %s\n  property held on this case\n", idx, obs)
+	}
+}
+
+// RecordBulk accounts for n evaluated cases of one outcome class at once.
+func (c *Cases) RecordBulk(obs string, n int, sample string) {
+	c.mu.Lock()
+	defer c.mu.Unlock()
+	c.st.Execs += n
+	c.st.Steps += n
+	c.st.Nodes += n
+	if n > 0 {
+		if _, ok := c.st.Outcomes[obs]; !ok && len(c.st.Sample) < 3 {
+			c.st.Sample = append(c.st.Sample, sample+" -> "+obs)
+		}
+		c.st.Outcomes[obs] += n
 	}
 }
 
